@@ -3,11 +3,15 @@
    arbitrary registries, names and keyword sets; the composition laws of the assembled environment are C12 (reduce_sum = the listed
    rewards in order) and the definition of `chain` (C01/C09); by kernel evaluation on the regenerated tables: every component entry
    of every shipped configuration passes its factory, packaged copies are identical, every gym id points to a packaged file.
-   Validation of malformed trees by the `schema` library is NOT modelled (oracle-only, see the suite).  Only statements. *)
+   The configuration layer (second half of the file): validation of arbitrary configuration trees by the schemas of envs/yaml/schemas.py
+   and the construction order of envs/yaml/factory.py are modelled in Model/Schema.v over tables regenerated from the LIVE schema objects
+   (Gen/Schema.v); proved for arbitrary tables: what is accepted, what is rejected with a schema error at every depth, what a built
+   environment consists of, that an unregistered name or a missing parameter never yields a component, that unaccepted parameters are
+   ignored; by kernel evaluation: every shipped configuration tree validates and constructs.  Only statements. *)
 From Coq Require Import ZArith List Bool.
-From GV.Gen Require Import Signatures Configs.
-From GV.Model Require Import Factory.
-From GV.Lemmas Require Import C17L C17G.
+From GV.Gen Require Import Signatures Configs Schema.
+From GV.Model Require Import Factory Schema.
+From GV.Lemmas Require Import C17L C17G C17S C17T.
 Import ListNotations.
 Open Scope Z_scope.
 
@@ -42,3 +46,96 @@ Theorem C17_shipped_copies_identical : forallb (fun b : bool => b) shipped_packa
 Proof. exact shipped_copies_identical. Qed.
 Theorem C17_registry_names_unique : forallb (fun reg => nodupz (map row_name reg)) all_registries = true.
 Proof. exact registry_names_unique. Qed.
+
+(* ======== the configuration layer: schema validation and construction order (Model/Schema.v), for arbitrary tables [T] ======== *)
+(* a dictionary is accepted iff every required key is there and every entry fits the schema its key selects (required literal keys first,
+   then optional literal keys, then -- where the schema allows other keys -- anything) *)
+Theorem C17_schema_dict_spec : forall T k req opt wild kv, t_dict T k = Some (req, opt, wild) ->
+  (valid T k (CDict kv) = true <->
+   (forall s k', In (s, k') req -> has_key s kv = true) /\
+   (forall key v, In (key, v) kv -> match key_kind req opt key with Some k' => valid T k' v = true | None => wild = true end)).
+Proof. exact valid_dict_spec. Qed.
+(* rejected with a schema error, never built: an unknown top-level key, a missing required key, a value that does not fit, not a dictionary *)
+Theorem C17_unknown_key_rejected : forall T kv s v req opt, t_dict T (k_env T) = Some (req, opt, false) -> In (CStr s, v) kv ->
+  zassoc s req = None -> zassoc s opt = None -> build T (CDict kv) = Err SchemaError.
+Proof. exact build_unknown_key. Qed.
+Theorem C17_missing_key_rejected : forall T kv s k' req opt wild, t_dict T (k_env T) = Some (req, opt, wild) -> In (s, k') req -> has_key s kv = false ->
+  build T (CDict kv) = Err SchemaError.
+Proof. exact build_missing_key. Qed.
+Theorem C17_bad_value_rejected : forall T kv s v k' req opt wild, t_dict T (k_env T) = Some (req, opt, wild) -> In (CStr s, v) kv ->
+  key_kind req opt (CStr s) = Some k' -> valid T k' v = false -> build T (CDict kv) = Err SchemaError.
+Proof. exact build_bad_value. Qed.
+Theorem C17_not_a_dict_rejected : forall T c req opt wild, t_dict T (k_env T) = Some (req, opt, wild) -> (forall kv, c <> CDict kv) -> build T c = Err SchemaError.
+Proof. exact build_not_a_dict. Qed.
+(* ... at any depth: a component entry with a malformed reserved parameter or without a name, a list with a bad element, a shape / layout that
+   is not a pair of positive integers, colour / action / object lists that are empty, repeat an element or name something that does not exist *)
+Theorem C17_entry_bad_value : forall T kv s v k' req opt wild, t_dict T (k_fn T) = Some (req, opt, wild) -> In (CStr s, v) kv ->
+  key_kind req opt (CStr s) = Some k' -> valid T k' v = false -> valid T (k_fn T) (CDict kv) = false.
+Proof. exact entry_bad_value. Qed.
+Theorem C17_entry_without_name : forall T kv req opt wild k', t_dict T (k_fn T) = Some (req, opt, wild) -> In (s_name T, k') req ->
+  has_key (s_name T) kv = false -> valid T (k_fn T) (CDict kv) = false.
+Proof. exact entry_without_name. Qed.
+Theorem C17_list_bad_element : forall T k ke l x, t_dict T k = None -> t_list T k = Some ke -> In x l -> valid T ke x = false -> valid T k (CList l) = false.
+Proof. exact list_bad_element. Qed.
+Theorem C17_malformed_pair_rejected : forall T c, t_dict T KPair = None -> t_list T KPair = None ->
+  (forall a b, c = CList [CInt a; CInt b] -> ~ (0 < a /\ 0 < b)) -> valid T KPair c = false.
+Proof. exact malformed_pair_rejected. Qed.
+Theorem C17_malformed_names_rejected : forall T k allowed c, t_dict T k = None -> t_list T k = None ->
+  (k = KColors /\ allowed = Some (t_colors T) \/ k = KActions /\ allowed = Some (t_actions T) \/ k = KObjects /\ allowed = None) ->
+  (forall ss, c = CList (map CStr ss) -> ss = [] \/ ~ NoDup ss \/ match allowed with Some a => exists s, In s ss /\ ~ In s a | None => False end) ->
+  valid T k c = false.
+Proof. exact malformed_names_rejected. Qed.
+(* what gets built is what is described: an inversion of the construction, clause by clause (spaces from their own sections, the listed actions
+   in the listed order or all of them, each component from its own entry, the transition / reward lists under `chain` / `reduce_sum`) *)
+Theorem C17_build_describes : forall T c d, build T c = Ok d ->
+  exists kv ss os rf tfs rfs obf tf,
+    c = CDict kv /\
+    assoc (s_state_space T) kv = Some ss /\ assoc (s_observation_space T) kv = Some os /\ assoc (s_reset_function T) kv = Some rf /\
+    assoc (s_transition_functions T) kv = Some tfs /\ assoc (s_reward_functions T) kv = Some rfs /\
+    assoc (s_observation_function T) kv = Some obf /\ assoc (s_terminating_function T) kv = Some tf /\
+    space_of T ss = Ok (d_state_types d, d_state_colors d) /\ space_of T os = Ok (d_obs_types d, d_obs_colors d) /\
+    d_actions d = match assoc (s_action_space T) kv with
+                  | Some (CList l) => match strs l with Some names => indices names (t_actions T) | None => [] end
+                  | _ => all_actions T end /\
+    fn T FReset rf = Ok (d_reset d) /\
+    fn T FTransition (CDict [(CStr (s_name T), CStr (s_chain T)); (CStr (s_transition_functions T), tfs)]) = Ok (d_transition d) /\
+    fn T FReward (CDict [(CStr (s_name T), CStr (s_reduce_sum T)); (CStr (s_reward_functions T), rfs)]) = Ok (d_reward d) /\
+    fn T FObservation obf = Ok (d_observation d) /\ fn T FTerminating tf = Ok (d_terminating d).
+Proof. exact build_ok_spec. Qed.
+Theorem C17_built_only_if_valid : forall T c d, build T c = Ok d -> valid T (k_env T) c = true.
+Proof. exact build_ok_valid. Qed.
+(* a built component IS the registered function of that name, bound to accepted keys only, all required ones among them *)
+Theorem C17_component_is_the_named_one : forall T fk c i bound ch, fn T fk c = Ok (Comp fk i bound ch) ->
+  exists r name, nth_error (t_registry T fk) i = Some r /\ row_name r = name /\
+                 (forall k, In k (row_req r) -> In k bound) /\ (forall k, In k bound -> In k (row_req r ++ row_opt r)).
+Proof. exact fn_ok_registered. Qed.
+Theorem C17_unknown_component_never_built : forall T fk kv name, assoc (s_name T) kv = Some (CStr name) -> ~ In name (map row_name (t_registry T fk)) ->
+  forall x, fn T fk (CDict kv) <> Ok x.
+Proof. exact fn_unknown_name. Qed.
+Theorem C17_missing_parameter_never_built : forall T fk kv name i r k, assoc (s_name T) kv = Some (CStr name) ->
+  lookup_row (t_registry T fk) name 0 = Some (i, r) -> In k (row_req r) -> has_key k kv = false -> forall x, fn T fk (CDict kv) <> Ok x.
+Proof. exact fn_missing_required. Qed.
+Theorem C17_listed_object_types : forall T names ts, object_types T names = Ok ts ->
+  length ts = length names /\ forall n s, nth_error names n = Some s -> exists i, nth_error ts n = Some i /\ nth_error (t_objects T) (Z.to_nat i) = Some s.
+Proof. exact object_types_spec. Qed.
+(* a parameter nobody accepts -- not the schema, not the construction code, not the component -- changes nothing, wherever the entry stands in
+   the configuration *)
+Theorem C17_unaccepted_parameter_ignored : forall T fk kv s v req opt,
+  t_dict T (k_fn T) = Some (req, opt, true) -> zassoc s req = None -> zassoc s opt = None -> ~ In s (process_order T) -> s <> s_name T ->
+  (forall name i r, assoc (s_name T) kv = Some (CStr name) -> lookup_row (t_registry T fk) name 0 = Some (i, r) -> ~ In s (row_req r ++ row_opt r)) ->
+  fn T fk (CDict (kv ++ [(CStr s, v)])) = fn T fk (CDict kv).
+Proof. exact fn_ignored_parameter. Qed.
+(* the tables regenerated from the live schema objects have the assumed shape; every shipped configuration TREE validates and constructs *)
+Theorem C17_shipped_trees_build : (20 <= length shipped_cfgs)%nat /\ forallb builds shipped_cfgs = true.
+Proof. exact shipped_trees_build. Qed.
+Example C17_ignored_parameter_nonvacuous :
+  first_reset <> [] /\
+  fn gen_tabs FReset (CDict (first_reset ++ [(CStr 12345, CInt 3)])) = fn gen_tabs FReset (CDict first_reset) /\
+  exists x, fn gen_tabs FReset (CDict first_reset) = Ok x.
+Proof. exact ignored_parameter_example. Qed.
+Example C17_rejections_nonvacuous :
+  build gen_tabs (CDict (first_tree ++ [(CStr 12345, CInt 1)])) = Err SchemaError /\
+  build gen_tabs (CDict (tl first_tree)) = Err SchemaError /\
+  build gen_tabs (CList []) = Err SchemaError /\
+  valid gen_tabs KPair (CList [CInt 3; CInt 0]) = false /\ valid gen_tabs KPair (CList [CInt 3]) = false /\ valid gen_tabs KPair (CList [CBool true; CInt 2]) = false.
+Proof. exact rejection_examples. Qed.
